@@ -42,7 +42,12 @@ CONSTANTS
     AuthPassesStrictMode,  \* TRUE: Auth.IAMClient() hands the node's strict mode to the IAM client.  FALSE: auth.strictMode is declared and
                      \*       read but never assigned, the IAM client of a running node validates URLs with ParsePublicURL(.., false)
     Urls, Tls, Cryptos, Sqls, Irmas, DidMethods, Moved, Secrets, SecretVia,   \* option classes
-    OutUrls, OutEntries, Contexts, AllowLists                                    \* action classes
+    OutUrls, OutEntries, Contexts, AllowLists,                                   \* action classes
+    \* how the strict-mode JSON-LD loader compares a requested context URL with the entries of its allow-list (jsonld.contexts.remoteallowlist
+    \* plus the keys of jsonld.contexts.localmapping): "exact" (the tree: string equality), "prefix" (an entry lets every URL through that
+    \* starts with its text), "host" (an entry lets every URL on its host through)
+    AllowMatch,
+    NearRels, Anchors   \* near-miss relations of a requested context URL to an allow-list entry, and the kind of entry it is near to
 \* on which running vectors actions are explored: the action guards read v.strict, v.dummy, flag and snap only (and flag / snap are
 \* functions of v.strict), so one canonical vector per (strict, dummy) suffices; the thorough tier explores all of them
 CONSTANT ActScope(_)
@@ -126,11 +131,34 @@ Holder(e) == CASE e = "vdr-didweb" -> "vdr"
                [] OTHER -> "none"
 \* a did:web identifier always yields an https:// URL with a host that is no IP address
 Expressible(e, u) == e = "vdr-didweb" => u \in {"https-name", "https-reserved", "https-redirect-http"}
+(*--------------------------- the JSON-LD allow-list ----------------------*)
+\* The allow-list is a list of URLs: "unrestricted remote contexts" are refused means that a context is loaded in strict mode only when its
+\* URL IS an entry.  A requested URL that is no entry can still be textually / structurally NEAR one (anchor = the entry it is near to):
+\*   ext-path      entry + "/more"              a document below a listed URL
+\*   ext-name      entry + "-more"              the last path element (or the host, for a path-less entry + "more.tld") goes on
+\*   ext-query     entry + "?more"
+\*   ext-host      path-less entry + ".more.tld/..."   the listed text is only the first labels of another host
+\*   ext-userinfo  path-less entry + "@other.tld/..."  the listed host is the userinfo, the request goes to other.tld
+\*   truncated     a proper prefix of an entry (its parent "directory")
+\*   same-host     another document on the host of an entry
+\*   scheme-http   the entry with http:// instead of https://
+\*   embeds        an unrelated URL that carries the entry in its path / query
+\* anchors: "remote-mapped" (default entry of remoteallowlist that is also a localmapping key), "mapped-only" (a localmapping key that is
+\* not on remoteallowlist), "operator" (an entry the operator added to remoteallowlist: exists with AllowLists class "with-url" only)
+AllNearRels == {"ext-path", "ext-name", "ext-query", "ext-host", "ext-userinfo", "truncated", "same-host", "scheme-http", "embeds"}
+\* which requested URLs a matching rule takes for listed ("equal" = the URL is an entry)
+Matches(rule, r) == CASE rule = "exact"  -> r = "equal"
+                      [] rule = "prefix" -> r \in {"equal", "ext-path", "ext-name", "ext-query", "ext-host", "ext-userinfo"}
+                      [] rule = "host"   -> r \in {"equal", "ext-path", "ext-name", "ext-query", "truncated", "same-host"}
+\* ext-host / ext-userinfo need an entry without a path: every mapped-only key (https://nuts.nl/credentials/...) has one
+NearExpressible(r, an, al) == /\ (an = "operator") => (al = "with-url")
+                              /\ (r \in {"ext-host", "ext-userinfo"}) => (an # "mapped-only")
 \* actions of a running node
-Actions == [kind : {"dummy-sign", "dummy-verify"}, arg : {None}, entry : {None}]
-           \cup [kind : {"jsonld"}, arg : Contexts, entry : AllowLists]
-           \cup {a \in [kind : {"outbound"}, arg : OutUrls, entry : OutEntries] : Expressible(a.entry, a.arg)}
-NoAct == [kind |-> None, arg |-> None, entry |-> None]
+Actions == [kind : {"dummy-sign", "dummy-verify"}, arg : {None}, entry : {None}, anchor : {None}]
+           \cup [kind : {"jsonld"}, arg : Contexts, entry : AllowLists, anchor : {None}]
+           \cup {a \in [kind : {"jsonld"}, arg : NearRels, entry : AllowLists, anchor : Anchors] : NearExpressible(a.arg, a.anchor, a.entry)}
+           \cup {a \in [kind : {"outbound"}, arg : OutUrls, entry : OutEntries, anchor : {None}] : Expressible(a.entry, a.arg)}
+NoAct == [kind |-> None, arg |-> None, entry |-> None, anchor |-> None]
 
 Init == /\ v \in Vectors
         /\ pc = "load" /\ i = 1 /\ by = "" /\ why = "" /\ act = NoAct /\ verdict = None
@@ -181,6 +209,8 @@ JsonldVerdict(vv, c, al) ==
     CASE c = "embedded" -> "performed"
       [] c = "listed"   -> IF al = "with-url" \/ ~vv.strict THEN "performed" ELSE "refused"
       [] c = "unlisted" -> IF vv.strict THEN "refused" ELSE "performed"
+      \* near an entry, but no entry: the filter of NewContextLoader(strict) decides with its matching rule
+      [] c \in AllNearRels -> IF vv.strict /\ ~Matches(AllowMatch, c) THEN "refused" ELSE "performed"
 
 Act == /\ pc = "running" /\ act = NoAct /\ ActScope(v)
        /\ \E a \in Actions :
@@ -198,6 +228,7 @@ Decided  == pc \in {"running", "refused"}
 Refused  == pc = "refused"
 Accepted == pc = "running"
 
+ASSUME NearRels \subseteq AllNearRels /\ AllowMatch \in {"exact", "prefix", "host"}
 TypeOK == /\ flag \in BOOLEAN /\ snap \in [ClientHolders -> BOOLEAN]
           /\ v \in Vectors /\ pc \in {"load", "configure", "running", "refused"} /\ i \in 1..(Len(Engines) + 1)
           /\ verdict \in {None, "performed", "refused"}
@@ -215,8 +246,10 @@ SecretOnCommandLineRefused == (Decided /\ SecretOnCommandLine(v)) => Refused
 NoDummyInStrict == (act.kind \in {"dummy-sign", "dummy-verify"} /\ v.strict) => verdict = "refused"
 DummyInNonStrict == (act.kind \in {"dummy-sign", "dummy-verify"} /\ ~v.strict /\ v.dummy) => verdict = "performed"
 \* unrestricted remote JSON-LD contexts
-NoUnlistedContextInStrict == (act.kind = "jsonld" /\ act.arg = "unlisted" /\ v.strict) => verdict = "refused"
-UnlistedContextInNonStrict == (act.kind = "jsonld" /\ act.arg = "unlisted" /\ ~v.strict) => verdict = "performed"
+\* (a context whose URL is no entry of the allow-list is unlisted, however near to an entry it is)
+NotOnAllowList(c) == c = "unlisted" \/ c \in AllNearRels
+NoUnlistedContextInStrict == (act.kind = "jsonld" /\ NotOnAllowList(act.arg) /\ v.strict) => verdict = "refused"
+UnlistedContextInNonStrict == (act.kind = "jsonld" /\ NotOnAllowList(act.arg) /\ ~v.strict) => verdict = "performed"
 \* plain-HTTP outbound requests and endpoints
 NoPlainHttpInStrict == (act.kind = "outbound" /\ v.strict) => ~PlainHttpSent(v, act.arg, act.entry, flag, snap)
 \* ... whenever the client was constructed: on a running strict node the flag is on, although every holder built its client before
